@@ -5,7 +5,7 @@ the exact value `sval n m · 2^e`.
 -/
 import CtyModel.Stdlib.Glue
 namespace CtyModel
-namespace Stdlib
+namespace StdNum
 
 /-- signed mantissa -/
 def sval (n : Bool) (m : Nat) : Int := if n then -(m : Int) else (m : Int)
@@ -29,5 +29,5 @@ def substrSpec (cs : List String) (offset length : Int) : List String :=
 /-- a known string argument -/
 abbrev sv (s : String) : Value := ⟨.string, .s s⟩
 
-end Stdlib
+end StdNum
 end CtyModel
